@@ -11,9 +11,19 @@ theorem C16_tie_completion_epoch (s : St) : completionEpoch s = unbondingComplet
 
 theorem C16_tie_completion_is_sum (cur n : Int) : unbondingCompletionEpoch cur n = cur + n := rfl
 
-/-- a missing finish epoch reads as −1 (negative ⇒ nil store key ⇒ the panic modelled in
-`undelegationStarted`) -/
-theorem C16_tie_missing_finish_epoch : optOutFinishEpochMissing = -1 ∧ optOutFinishEpochMissing < 0 := by decide
+/-- a missing finish epoch reads as −1, and (after the F-16a fix) the delegation hook returns
+without holding exactly when the finish epoch it read is negative — the `none` branch of
+`undelegationStarted` -/
+theorem C16_tie_missing_finish_epoch :
+    optOutFinishEpochMissing = -1 ∧ undelegationMissingFinishEpoch optOutFinishEpochMissing = true ∧
+    (∀ f : Int, undelegationMissingFinishEpoch f = decide (f < 0)) := by
+  refine ⟨by decide, by decide, fun f => rfl⟩
+
+/-- for an operator that is opting out the completion epoch is the stored finish epoch and
+nothing else (no second assignment, no min/max with the regular completion epoch): the
+`some f => hold f` branch of `undelegationStarted` -/
+theorem C16_tie_optout_branch :
+    undelegationOptOutBranch = ["assign:GetOperatorOptOutFinishEpoch", "return-nil-if"] := by decide
 
 /-- AfterEpochEnd: mark, then for each of the three queues read the slot, set pending, clear the
 slot (`epochEndHook`) -/
